@@ -272,8 +272,103 @@ def pytree_registration_rules(chk, S):
                 r3.require(nm in carried, f"{name} carries {nm.split('.', 1)[1]}", "in children or aux", f"constructor argument {nm} is neither a child nor auxiliary data", where)
 
 
+# ---------------------------------------------------------------------------
+# R-C15-4: "means and standard deviations ... with a leading time axis": a stacked solution holds Normals whose arrays carry extra leading axes, and every
+# accessor with a rank test peels ONE axis by mapping ITSELF over the variable until the unbatched layout is reached.  Decided by interpretation with
+# rank-annotated fields at 0, 1 and 2 extra axes: the own-class vmap arm is taken iff there is an extra axis, it maps the same method of the same class
+# over the same variable, and its value is what the accessor returns.
+_PEELS_BLOCKS = {
+    # the helper's base case is one (n, n) block, so the unbatched (d, n, n) factor takes the mapped arm once by design
+    "BlockDiagNormal._cov_dense": 1,
+}
+
+
+def _rank_tested_methods(ci):
+    import ast as _ast
+
+    out = []
+    for name, fn in ci.methods.items():
+        for node in _ast.walk(fn):
+            if isinstance(node, _ast.If) and any(isinstance(x, _ast.Attribute) and x.attr == "ndim" for x in _ast.walk(node.test)):
+                out.append(name)
+                break
+    return sorted(out)
+
+
+def batched_accessor_rules(chk, S):
+    from ..interp import BoundMethod, Closure
+    from ..model import AnalysisError as _AE
+
+    r4 = chk.rule("R-C15-4", "batched accessors (leading time / sample axes): every rank-tested method of the three Normal classes maps itself -- same class, same method, same variable -- "
+                  "over one leading axis exactly when the variable carries an extra axis, and returns the mapped value", floor=24)
+    for fam, mod, _tfname, nname in FAMS:
+        ci = S.p.find_class(f"{mod}.{nname}")
+        rank = {"dense": 1, "isotropic": 2, "blockdiag": 2}[fam]
+        meths = _rank_tested_methods(ci)
+        r4.require(len(meths) >= 3, f"{nname} rank-tested accessors", f"{meths}", f"only {meths} test a rank: the batched accessors of the stacked solution are gone", f"{mod}.{nname}", {"factorisation": fam})
+        for meth in meths:
+            own = f"{mod}.{nname}.{meth}"
+            base_extra = _PEELS_BLOCKS.get(f"{nname}.{meth}", 0)
+            for extra in (0, 1, 2):
+                it = S.interp()
+                ncv = it.class_value(f"{mod}.{nname}")
+                mf = T.atom(f"mean_flat_{fam}", ndims={"": rank + extra})
+                mf.meta["ndim"] = rank + extra
+                cf = T.atom(f"chol_{fam}", ndims={"": rank + 1 + extra})
+                cf.meta["ndim"] = rank + 1 + extra
+                for a_ in (mf, cf):
+                    a_.meta["shape"] = None
+                rv = it.instantiate(ncv, [mf, cf, A("tf")], {}, "<harness>")
+                seen = []
+                token = T.atom(f"mapped[{extra}]")
+
+                def vhook(itp, w, args, kwargs, site, _seen=seen, _rv=rv, _tok=token):
+                    f = w.fn
+                    q = f.fn.qualname if isinstance(f, BoundMethod) else getattr(f, "qualname", None)
+                    if isinstance(f, (Closure, BoundMethod)) and q and ".".join(q.split(".")[:-1]).endswith("Normal") and args and args[0] is _rv:
+                        _seen.append((q, len(args), site))
+                        return _tok
+                    return T.mk("vmap_apply", (w, *args), kwargs, origin=site)
+
+                it.hooks["vmap.apply"] = vhook
+                for other in meths:
+                    if other != meth:  # modular: the other rank-tested accessors are decided on their own
+                        it.method_hooks[f"{mod}.{nname}.{other}"] = lambda itp, fn, a, kw, site, _o=other: T.atom(f"self.{_o}()")
+                construct = f"{nname}.{meth} with {extra} extra leading ax{'is' if extra == 1 else 'es'}"
+                cfg = {"factorisation": fam, "method": meth, "extra_axes": extra}
+                kind = ci.method_kind.get(meth)
+                import ast as _ast
+
+                nargs = len(ci.methods[meth].args.args) - 1 + len(ci.methods[meth].args.posonlyargs)
+                try:
+                    res = call(it, method(it, rv, meth), *[T.atom(f"arg{i}") for i in range(nargs)]) if kind != "property" else it.getattr(rv, meth, None)
+                except _AE as e:
+                    if extra + base_extra == 0 and not seen:
+                        # the unbatched arm needs concrete shapes this harness does not give: the arm decision (no mapped call) is what is asked here
+                        r4.ok(construct, f"takes the unbatched arm (its body is the subject of R-C15-1 / C08 / C13): {str(e)[:80]}", own, cfg)
+                    elif seen:
+                        r4.unknown(construct, f"mapped arm taken but the accessor did not return: {e}", own, cfg)
+                    else:
+                        r4.unknown(construct, str(e), own, cfg)
+                    S.absorb(it)
+                    continue
+                except Exception as e:  # RaiseSignal and friends: the method raised on this variable
+                    r4.unknown(construct, f"{type(e).__name__}: {e}", own, cfg)
+                    S.absorb(it)
+                    continue
+                S.absorb(it)
+                if extra + base_extra == 0:
+                    r4.require(not seen, construct, "unbatched layout: evaluated directly, nothing is mapped over the variable", f"maps {[q for q, _n, _s in seen]} over an unbatched variable (rank test off by one: the accessor would peel a coefficient / state axis)", own, cfg)
+                    continue
+                ok = len(seen) == 1 and seen[0][0] == own and res is token
+                r4.require(ok, construct, f"returns vmap({nname}.{meth})(self, ...)",
+                           (f"mapped calls over the variable: {[q for q, _n, _s in seen] or 'none'}" + ("" if res is token else f"; returns {T.show(res, 3)} instead of the mapped value")
+                            + (f" -- the batched arm must map {own} itself" if seen and seen[0][0] != own else "") + (" -- a stacked variable is evaluated as if it were a single one" if not seen else "")), own, cfg)
+
+
 def run(chk, S: Session):
     _run_own(chk, S)
+    batched_accessor_rules(chk, S)
     from ..harness import borrow
 
     rb = chk.rule("R-C15-B", "clauses of this statement decided by rules of C07 (contraction rate independent of the leaf structure), C18 (step helpers consume the whole pytree state) and C10 (the flat wrapper of a pytree problem differentiates explicit time like the flat problem)", floor=3)
